@@ -13,6 +13,11 @@ UNIT = dict(
     extract=[
         dict(id="Watcher", kind="type", src=F, name="Watcher", structural=True),
         dict(id="WatchedPath", kind="type", src="crates/lib/src/watched_path.rs", name="WatchedPath", structural=True, add_derive=["Copy"]),
+        dict(id="notify_multi_path_errors", kind="fn", src=F, name="notify_multi_path_errors",
+             rules=dict(for_desugar=[0], subst=[("notify::Error", "NotifyError"), ("PathBuf", "PathS")], pre_subst=[
+                 ("take(&mut err.paths)", "vx_take_paths(&mut err)"),
+                 ("err\n\t\t\t.take()\n\t\t\t.unwrap_or_else(|| notify::Error::generic(&generic))\n\t\t\t.add_path(path.clone())", "vx_next_error(&mut err, &generic, path)"),
+             ])),
         dict(id="fs::worker", kind="fn", src=F, name="worker",
              rules=dict(for_desugar=[0, 1, 2, 3, 4, 5], pre_subst=[
                  ("path: path.path.clone(),", "path: path.path,"),
